@@ -53,7 +53,10 @@ EncExt(e, next) ==
        \* second octet: reserved ("initialized to zero for transmission; ignored on reception", RFC 8200 4.5): it is NOT a length
        LET h == <<next, IF x = "rsv1" THEN 1 ELSE IF x = "rsv255" THEN 255 ELSE 0, 0, IF x = "frag" THEN 9 ELSE IF x = "more" THEN 1 ELSE 6, 0, 0, 0, 7>> IN
        IF x = "cut" THEN SubSeq(h, 1, 5) ELSE h
-  ELSE LET h == IF x = "long" THEN <<next, 1>> \o Rep(14, 0) ELSE IF x = "big" THEN <<next, 1>> \o Rep(6, 0) ELSE <<next, 0>> \o Rep(6, 0) IN
+  \* "jumbo": hop-by-hop header carrying an RFC 2675 jumbo payload option announcing 69 999 bytes (the crate documents that it does not
+  \* interpret it: a zero payload length means "up to the end of the slice" for every decoder alike)
+  ELSE LET h == IF x = "long" THEN <<next, 1>> \o Rep(14, 0) ELSE IF x = "big" THEN <<next, 1>> \o Rep(6, 0)
+                ELSE IF x = "jumbo" THEN <<next, 0, 194, 4, 0, 1, 17, 111>> ELSE <<next, 0>> \o Rep(6, 0) IN
        IF x = "cut" THEN SubSeq(h, 1, 5) ELSE h
 
 \* chain = sequence of <<kind, variant>>; returns <<first next-header, bytes>>
@@ -168,6 +171,7 @@ V6s ==
   {[DefV6 EXCEPT !.pl = x, !.trail = t] : x \in {"ok", "zero", "minus", "plus", "minus9"}, t \in {0, 3}}
   \cup {[DefV6 EXCEPT !.ver = x] : x \in {"four", "five", "zero"}}
   \cup {[DefV6 EXCEPT !.chain = c] : c \in Chains}
+  \cup {[DefV6 EXCEPT !.chain = <<<<0, "jumbo">>>>, !.pl = x, !.trail = t] : x \in {"zero", "ok"}, t \in {0, 3}}
   \cup {[DefV6 EXCEPT !.chain = c, !.pl = x, !.trail = 3] : c \in {<<<<60, "ok">>>>, <<<<60, "cut">>>>, <<<<51, "cut">>>>, <<<<44, "ok">>, <<60, "big">>>>}, x \in {"zero", "minus", "plus"}}
 
 Arps == {[k |-> "arp", hw |-> h[1], pr |-> h[2], trail |-> t] : h \in {<<6, 4>>, <<0, 0>>, <<1, 1>>, <<20, 16>>, <<255, 255>>}, t \in {0, 3}}
